@@ -4,6 +4,7 @@
 #include <cstdint>
 #include <limits>
 #include <variant>
+#include <algorithm>
 #include <vector>
 
 #include <covfie/core/backend/primitive/array.hpp>
@@ -16,6 +17,7 @@
 #include <covfie/core/utility/numeric.hpp>
 
 #include "interp_ref.hpp"
+#include "probes.hpp"
 #include "vh.hpp"
 
 #ifndef SH_N
@@ -209,6 +211,78 @@ struct Lin {
     }
 };
 
+// Which cells does the interpolator READ?  Over an index-recording probe storage (no memory behind it)
+// the extents can be 2^20 per axis: the 2^N flat indices asked for must be exactly those of the cell
+// containing x.  This pins the neighbour enumeration at coordinates far beyond any array-backed field.
+template <typename R, std::size_t N>
+static void which_cells(vh::Rng & rng, unsigned nfields, unsigned ncoords)
+{
+    using idx_d = cv::vector_d<std::size_t, N>;
+    using order_t = cb::strided<idx_d, probe::flat<cv::float1>>;
+    using backend_t = cb::linear<order_t, cv::vector_d<R, N>>;
+    using field_t = covfie::field<backend_t>;
+    const std::string nm = std::string("linear<strided<probe>>,N=") + std::to_string(N) + ",coord=" + vh::tn<R>() + ":cells-read";
+    if (!vh::selected(nm)) return;
+    for (unsigned fi = 0; fi < nfields; ++fi) {
+        covfie::utility::nd_size<N> ext;
+        uint64_t len = 1;
+        const unsigned per = 60 / N > 20 ? 20 : 60 / N;
+        for (std::size_t k = 0; k < N; ++k) {
+            ext[k] = 2 + rng.below(1ull << rng.below(per + 1));
+            len *= ext[k];
+        }
+        vh::set_case("%s extents=%s", nm.c_str(), vh::jarr(ext, N).c_str());
+        field_t f(covfie::make_parameter_pack(std::monostate{}, typename order_t::configuration_t(ext), covfie::utility::nd_size<1>{len}));
+        probe::FlatLog & log = f.backend().get_backend().get_backend().log();
+        typename field_t::view_t view(f);
+        for (unsigned q = 0; q < ncoords; ++q) {
+            typename field_t::coordinate_t c;
+            uint64_t base[N];
+            for (std::size_t k = 0; k < N; ++k) {
+                uint64_t cells = ext[k] - 1, i = rng.below(cells);
+                if (rng.below(4) == 0) i = cells - 1;
+                if (rng.below(8) == 0) i = 0;
+                R v = (R)((double)i + (rng.below(3) ? rng.unit() : 0.0));
+                if (!((iref::Q)v < (iref::Q)cells)) v = std::nextafter((R)cells, (R)0);
+                c[k] = v;
+                base[k] = (uint64_t)floorq((iref::Q)v);
+            }
+            uint64_t q0 = log.queries, oob0 = log.oob;
+            (void)view.at(c);
+            vh::ev();
+            vh::nontrivial(vh::fnv(base, sizeof base, vh::fnv(&ext, sizeof ext, vh::fnv(nm))));
+            std::string d = "extents=" + vh::jarr(ext, N) + " x=" + vh::jarr(c, N);
+            if (log.oob != oob0) {
+                vh::viol(nm, d + ": read flat index " + std::to_string(log.first_oob) + " outside the field");
+                break;
+            }
+            uint64_t nread = log.queries - q0;
+            if (nread != (1ull << N)) {
+                vh::viol(nm, d + ": " + std::to_string(nread) + " cells read, expected " + std::to_string(1ull << N));
+                break;
+            }
+            std::vector<uint64_t> got, want;
+            for (uint64_t r = 0; r < nread; ++r) got.push_back(log.ring[(q0 + r) % 64]);
+            for (uint64_t bits = 0; bits < (1ull << N); ++bits) {
+                unsigned __int128 idx = 0;
+                for (std::size_t k = 0; k < N; ++k) {
+                    unsigned __int128 t = base[k] + ((bits >> k) & 1);
+                    for (std::size_t l = k + 1; l < N; ++l) t *= ext[l];
+                    idx += t;
+                }
+                want.push_back((uint64_t)idx);
+            }
+            std::sort(got.begin(), got.end());
+            std::sort(want.begin(), want.end());
+            if (got != want) {
+                vh::viol(nm, d + ": read flat indices {" + vh::join(got) + "}, the cell containing x is {" + vh::join(want) + "}");
+                break;
+            }
+            if (fi == 1 && q == 0) vh::sample(nm, d + " reads {" + vh::join(got) + "}", 1);
+        }
+    }
+}
+
 template <typename R, std::size_t N, std::size_t M>
 static void for_m(vh::Rng & rng, unsigned nf, unsigned nc)
 {
@@ -236,6 +310,7 @@ int main(int argc, char ** argv)
     unsigned nf = th ? 24 : 9, nc = th ? 4000 : 500;
 #if !defined(SH_M) || SH_M == 1
     for_m<SH_R, SH_N, 1>(rng, nf, nc);
+    which_cells<SH_R, SH_N>(rng, th ? 200 : 30, th ? 2000 : 300);
 #endif
 #if !defined(SH_M) || SH_M == 2
     for_m<SH_R, SH_N, 2>(rng, nf, nc);
